@@ -227,6 +227,32 @@ def _large_leg(ctx, I, rnd, quick):
     ctx.leg("R-large", loads=n)
 
 
+# injective renamings of the model's abstract names / of the type py:func (the model only distinguishes py:module):
+# cased names under the types Sphinx itself matches case-insensitively at lookup time -- the TABLE keeps the case
+RENAMES = [({}, None),
+           ({"m": "M", "m x": "M x"}, ("std", "term")),
+           ({"m": "m X", "m x": "m x"}, ("std", "label"))]
+
+
+def _ren(rec, variant):
+    names, ty = RENAMES[variant]
+    if ty is None:
+        return rec
+    def t(x):
+        return [ty[0], ty[1], True] if (x[0], x[1]) == ("py", "func") else list(x)
+    def k(key):
+        d, tt, _ = t([key[0], key[1], True])
+        return [d, tt, names[key[2]]]
+    def loc(v):
+        # "$" was expanded with the name: p.html#<name>
+        for a in sorted(names, key=len, reverse=True):
+            if v["loc"] == "p.html#" + a:
+                return "p.html#" + names[a]
+        return v["loc"]
+    return {"lines": [{**e, "name": names[e["name"]], "ty": t(e["ty"]), "disp": names.get(e["disp"], e["disp"])} for e in rec["lines"]],
+            "res": [{"key": k(v["key"]), "loc": loc(v), "text": names.get(v["text"], v["text"])} for v in rec["res"]]}
+
+
 def _serialise(lines):
     """entry records of InvEntry.tla -> (v2 bytes, text lines)"""
     out = []
@@ -241,6 +267,7 @@ def _serialise(lines):
 
 
 def _replay_table(ctx, I, rec, idx, rnd, quick):
+    rec = _ren(rec, idx % 3)
     data, text = _serialise(rec["lines"])
     exp = [(v["key"][0], v["key"][1], v["key"][2], v["loc"], None if v["text"] == "NONE" else v["text"]) for v in rec["res"]]
     # oracle of the oracle: M must agree with Sphinx's own loader on these bytes
@@ -411,7 +438,7 @@ def _random_load(ctx, I, rnd, t, long_header=False):
     vers = rnd.choice(["1.0", "2", ""])
     lines, names, bad = [], [], 0
     for j in range(nlines):
-        name = rnd.choice(["f{}", "mod.f{}", "a b{}", "x${}", "ü{}", "n-{}"]).format(j)
+        name = rnd.choice(["f{}", "mod.f{}", "a b{}", "x${}", "ü{}", "n-{}", "Up{}", "API É{}"]).format(j)
         if v2:
             kind = rnd.random()
             if kind < 0.1:
@@ -421,7 +448,7 @@ def _random_load(ctx, I, rnd, t, long_header=False):
             elif kind < 0.2:
                 lines.append("\n")
             else:
-                typ = rnd.choice(["py:function", "std:label", "py:module", "c:macro"])
+                typ = rnd.choice(["py:function", "std:label", "std:term", "py:module", "c:macro"])
                 loc = rnd.choice(["api.html#$", f"x/{j}.html", "i.html#a-$", "", "$"])
                 disp = rnd.choice(["-", "Display Name", "a  b"])
                 lines.append(f"{name} {typ} {rnd.choice([1, -1, 0, 2])} {loc} {disp}\n")
